@@ -187,7 +187,13 @@ Theorem em_and_baum_welch_configurations_are_covered :
   (forall oe ow, cfg_safe (em_cfg oe ow) = true) /\ (forall oe, cfg_safe (bw_cfg oe true) = true).
 Proof. exact (conj em_cfg_safe bw_cfg_safe). Qed.
 
-(* KNOWN FINDING F-BW-NOTRANS-NILDEREF: with BaumWelchOptimizeTransitions{false} tmp[.].tr is a nil
+(* round 6: at /repo HEAD (fix 25c790a: `if tr != nil` around the reset) all four Baum-Welch configurations are safe, so
+   optional_accumulators_merge_per_configuration covers BaumWelchOptimizeTransitions{false} as well *)
+Theorem baum_welch_at_head_all_configurations_are_covered :
+  forall oe ot, cfg_safe (bw_cfg_head oe ot) = true.
+Proof. exact bw_cfg_head_safe. Qed.
+
+(* KNOWN FINDING F-BW-NOTRANS-NILDEREF (the code BEFORE fix 25c790a; selected by the harness probe only while the panic is observed): with BaumWelchOptimizeTransitions{false} tmp[.].tr is a nil
    *DenseFloat64Matrix and the reset block of baumWelchThread calls tr.Map on it: the first job
    of every step panics, for every pool size (on a worker goroutine this kills the process) *)
 Theorem baum_welch_without_transitions_panics_refuted :
@@ -365,3 +371,126 @@ Example emissions_error_example :
   flow false true [XAdd true [false; true; false] [false; false; true]; XWait true] false = true /\
   flow false true [XAdd true [false; true; false] [false; false; true]; XWait false] false = false.
 Proof. exact emissions_error_example_proof. Qed.
+
+(* ======================================================================================
+   Round 6 — the per-thread partial sums of ALL batch estimators (scalarEstimator: Categorical, Exponential, Geometric,
+   NegativeBinomial, Normal, Poisson; vectorEstimator: Normal), from a description REGENERATED from the Go source.
+   go2coq_c17 -accum prints, per slice that Initialize allocates with make(T, p.NumberOfThreads()): its initial value and
+   the loop storing it, every update in NewObservation (operator, first index) and every statement of another method that
+   folds field[i] inside a counting loop (operator, transfer function, first index, bound, initial target): Accum_gen.v.
+   ModelAccum.acc_run is the semantics of such a description (cells, jobs on their threads = Model.job_eager, the fold);
+   ModelAccum.gaccum_ok the decision. *)
+From Coq Require Import String.
+From ADV Require Import C17.ModelAccum C17.Accum_gen C17.ProofsAccum C17.ProofsAccumGen.
+
+(* (1'') an accepted description returns the (transferred) monoid sum of the contributions - for EVERY pool size k >= 1
+   (also larger than the number of jobs), every schedule, every commutative monoid and every homomorphism between them,
+   whatever junk values zA zB stand for "not the neutral element" *)
+Theorem accepted_accumulator_returns_the_sum :
+  forall a, gaccum_ok a = true ->
+  exists s, shape_of a = Some s /\
+  forall (A B : Type) opA eA opB eB (h : A -> B) zA zB,
+    commutative_monoid A opA eA -> commutative_monoid B opB eB -> monoid_hom A B opA eA opB eB h ->
+  forall (J : Type) (c : J -> A) (k : nat) (jobs : list J) (sch : list (nat * J)),
+    (1 <= k)%nat -> schedule_of J k jobs sch ->
+    acc_run A B opA eA opB eB h zA zB s k (events A J c sch) = Some (h (sum_of A opA eA J c jobs)).
+Proof. exact accepted_accumulator_sound. Qed.
+
+(* decided on the SOURCE on every run: every slice of per-thread partial sums found in the library is accepted, the 19
+   accumulators the check was built on are all still there *)
+Theorem generated_accumulators_are_accepted :
+  forallb gest_ok gen_estimators = true /\
+  accum_coverage gen_estimators = true /\
+  Nat.leb 19 (List.length (accumulators gen_estimators)) = true /\
+  (forall e a, In e gen_estimators -> In a (e_acc e) -> is_accumulator a = true -> gaccum_ok a = true).
+Proof. exact (conj gen_estimators_ok (conj gen_accum_coverage (conj gen_accumulators_many gen_accumulator_ok))). Qed.
+
+(* the three accepted (update operator, transfer, fold operator) combinations are homomorphisms between the carriers of
+   Carriers.v: identity on (R,+) and on the log domain; n |-> log n from the counts (N,+,0) into the log domain
+   (sum_g = LogAdd(sum_g, math.Log(float64(sum_c[i]))): exp of the merged value = sum of the weights + number of
+   unweighted observations) *)
+Theorem accepted_transfers_are_homomorphisms :
+  (forall uop t mop, transfer_ok uop t mop = true ->
+     (uop = OPlus /\ t = TId /\ mop = OPlus) \/ (uop = OLogAdd /\ t = TId /\ mop = OLogAdd) \/
+     (uop = OPlus /\ t = TLogCount /\ mop = OLogAdd)) /\
+  commutative_monoid nat Nat.add 0%nat /\ monoid_hom nat lval Nat.add 0%nat logadd None logcount /\
+  (forall n, lexp (logcount n) = INR n) /\
+  (forall (A : Type) (op : A -> A -> A) (e : A), monoid_hom A A op e op e (fun a => a)).
+Proof. exact (conj transfer_ok_cases accumulator_carriers). Qed.
+
+(* the decision accepts exactly the two folds the library codes (s := e; i from 0  |  s := F[0]; i from 1) ... *)
+Theorem accepted_shapes_are_the_two_coded :
+  forall s, shape_ok s = true -> s = mkShape true 0 TinIdentity \/ s = mkShape true 1 TinAcc0.
+Proof. exact shape_ok_only_two. Qed.
+
+(* ... and what it rejects loses or duplicates a contribution: the regression classes "the fold starts at 1", "s := F[0]
+   and the fold starts at 0", "a cell / the target is not initialised to the neutral element" on (Z,+,0), jobs 10 and 20 *)
+Theorem rejected_accumulator_shapes_refuted :
+  let tr := [(0%nat, 10%Z); (1%nat, 20%Z)] in
+  zrun (mkShape true 0 TinIdentity) 2 tr = Some 30%Z /\
+  zrun (mkShape true 1 TinAcc0) 2 tr = Some 30%Z /\
+  zrun (mkShape true 1 TinIdentity) 2 tr = Some 20%Z /\
+  zrun (mkShape true 0 TinAcc0) 2 tr = Some 40%Z /\
+  zrun (mkShape true 2 TinAcc0) 2 tr = Some 10%Z /\
+  zrun (mkShape false 0 TinIdentity) 2 tr = Some 32%Z /\
+  zrun (mkShape true 0 TinOther) 2 tr = Some 31%Z.
+Proof. exact rejected_shapes_lose_or_duplicate. Qed.
+
+(* an accumulator that is never folded, folded twice, or updated at an index that is not GetThreadId() of the
+   method's own pool handle is rejected *)
+Theorem unmerged_or_unowned_accumulator_rejected :
+  (forall a, a_merge a = [] -> gaccum_ok a = false) /\
+  (forall a m1 m2 r, a_merge a = m1 :: m2 :: r -> gaccum_ok a = false) /\
+  (forall a, existsb (fun u => negb (u_tid u)) (a_upd a) = true -> gaccum_ok a = false).
+Proof. exact rejected_descriptions. Qed.
+
+(* the hypotheses are satisfiable: the count accumulator sum_c as generated, and the vector NormalEstimator's fold on
+   3 jobs and 4 threads (threads 0 and 3 never used) *)
+Example accumulator_example :
+  gaccum_ok (mkGAccum "sum_c"%string "[]int"%string true VZero true [mkGUpd OPlus true]
+                      [mkGMerge "updateEstimate"%string "sum_g"%string OLogAdd TLogCount 0 BLen INegInf]) = true /\
+  schedule_of nat 4 [0; 1; 2]%nat [(2, 1); (1, 0); (2, 2)]%nat /\
+  acc_run nat nat Nat.add 0%nat Nat.add 0%nat (fun x => x) 7%nat 7%nat (mkShape true 1 TinAcc0) 4
+          (events nat nat (fun j => (10 ^ j)%nat) [(2, 1); (1, 0); (2, 2)]%nat) = Some 111%nat.
+Proof. exact accumulator_example_proof. Qed.
+
+(* ======================================================================================
+   Round 6 — BELOW the job-atomic schedule model: `acc[i] (+)= x` as a read step and a write step of a thread-local
+   register, the threads interleaved arbitrarily on sequentially consistent memory (ModelThreads.v).  This is the link
+   between (2) write-set disjointness and (1) the merge theorems: the schedule model treats a job as one atomic event;
+   that is justified exactly when every statement addresses the executing thread's own cell. *)
+From ADV Require Import C17.ModelThreads C17.ProofsThreads.
+
+(* programs that address only their own thread's cell (what (2) decides for the library's closures), run to completion
+   under ANY interleaving of their read and write steps: every cell holds what its thread computes alone - no lost update *)
+Theorem owned_cells_lose_no_update_under_any_interleaving :
+  forall (A : Type) (op : A -> A -> A) (s0 : mstate A) (il : list nat) (s' : mstate A),
+    owned A s0 -> quiescent A s0 -> rw_run A op il s0 = Some s' -> finished A s' ->
+    forall t, cells s' t = alone A op s0 t.
+Proof. exact owned_cells_no_lost_update. Qed.
+
+Theorem final_memory_is_interleaving_independent :
+  forall (A : Type) (op : A -> A -> A) (s0 : mstate A) (il1 il2 : list nat) (s1 s2 : mstate A),
+    owned A s0 -> quiescent A s0 -> rw_run A op il1 s0 = Some s1 -> rw_run A op il2 s0 = Some s2 ->
+    finished A s1 -> finished A s2 -> forall t, cells s1 t = cells s2 t.
+Proof. exact interleaving_independent. Qed.
+
+(* no thread that still has work is ever blocked at this level (the accumulators take no lock) *)
+Theorem unfinished_thread_is_never_blocked :
+  forall (A : Type) (op : A -> A -> A) (s : mstate A) (t : nat),
+    prog (ths s t) <> [] -> exists s', rw_step A op t s = Some s'.
+Proof. exact unfinished_thread_can_step. Qed.
+
+(* the regression class "an accumulator indexed by a constant / a foreign thread id" at this level: two threads adding
+   10 and 20 to the same cell, read-read-write-write: 20 instead of 30; with owned cells both interleavings agree *)
+Theorem shared_cell_loses_an_update_refuted :
+  option_map (fun s => cells s 0%nat) (rw_run Z Z.add [0; 1; 0; 1]%nat shared_start) = Some 20%Z /\
+  option_map (fun s => cells s 0%nat) (rw_run Z Z.add [0; 0; 1; 1]%nat shared_start) = Some 30%Z /\
+  option_map (fun s => (cells s 0%nat, cells s 1%nat)) (rw_run Z Z.add [0; 1; 0; 1]%nat owned_start) = Some (10%Z, 20%Z) /\
+  option_map (fun s => (cells s 0%nat, cells s 1%nat)) (rw_run Z Z.add [1; 0; 0; 1]%nat owned_start) = Some (10%Z, 20%Z).
+Proof. exact shared_cell_lost_update. Qed.
+
+(* the hypotheses are satisfiable (and distinguish the two programs) *)
+Example owned_interleaving_example :
+  owned Z owned_start /\ quiescent Z owned_start /\ ~ owned Z shared_start.
+Proof. exact owned_start_hyps. Qed.
